@@ -806,6 +806,13 @@ def check(case):
                 (refit(e5, fr, v1) if refit else e["fit"](e5, fr))
                 r.transitions += 3
                 d = _diff_state(_state(e4), _state(e5), e.get("loose", ()))
+                if not d and not e.get("ctor_arrays"):
+                    # ... and the SAME estimator refitted on the same (updated) array objects
+                    (refit(e3, a3, v1) if refit else e["fit"](e3, a3))
+                    r.transitions += 1
+                    d = _diff_state(_state(e3), _state(e5), e.get("loose", ()))
+                    if d:
+                        d = ["same estimator refitted"] + d
                 if d:
                     r.fail("result-depends-on-array-identity", "%s: same array objects updated in place vs fresh copies: %s" % (name, "; ".join(d)[:300]))
                 else:
